@@ -210,7 +210,7 @@ func report(prop string, cfg *PropConfig, w *World, results []*FnResult, missing
 			fmt.Printf("UNDECIDED: bounded stand-in %s did not run: %s\n", b.Name, firstLines(b.Error, 3))
 			continue
 		}
-		fmt.Printf("BOUNDED %s: %s; %d violations; bound: %s\n", b.Name, b.Summary, len(b.Violations), b.Bound)
+		fmt.Printf("BOUNDED %s: %s; %d violations not listed as known findings, %d matching a listed known finding; bound: %s\n", b.Name, b.Summary, len(b.Violations), b.KnownHits, b.Bound)
 		if len(b.Violations) > 0 {
 			violations++
 			path := filepath.Join(replayDir, safeName("bounded_"+b.Name)+".json")
